@@ -167,7 +167,7 @@ fn check_c19(check: &mut Check) -> (String, Vec<String>, String) {
   // the child-process engine runs first and alone: it is the only timing-sensitive one (the
   // library's own shutdown deadlines), so nothing else of this check competes with it for CPU
   let per_thread = ctx.tier.pick(40usize, 120usize);
-  let e2e_cases: u64 = std::env::var("VERIF_E2E_CASES").ok().and_then(|v| v.parse().ok()).unwrap_or(ctx.tier.pick(480, 12_000));
+  let e2e_cases: u64 = std::env::var("VERIF_E2E_CASES").ok().and_then(|v| v.parse().ok()).unwrap_or(ctx.tier.pick(420, 12_000));
   let mut out = vcore::drive(&ctx, &check.findings, 2, e2e_cases, move || c19_e2e::strategy(per_thread), c19_e2e::execute_recording);
   // failures vcore could not confirm on its final re-run (race-dependent): report the smallest
   // scenario that was actually seen failing with that signature, marked as flaky
@@ -215,7 +215,13 @@ fn check_c19(check: &mut Check) -> (String, Vec<String>, String) {
     check.require_class(class, min);
   }
   if check.stats.inconclusive > 0 {
-    check.health_failures.push(format!("{} child process(es) did not finish within the time limit (hang: inconclusive, not a violation)", check.stats.inconclusive));
+    let n = |k: &str| check.stats.classes.get(k).copied().unwrap_or(0);
+    check.health_failures.push(format!(
+      "{} child process(es) gave no verdict: {} exceeded the child time limit, {} had an appender task abandoned at the library's shutdown deadline (stalls: inconclusive, not a violation)",
+      check.stats.inconclusive,
+      n("e2e/child_timeout"),
+      n("e2e/shutdown_deadline_hit")
+    ));
   }
   (
     "proptest-generated logger trees over a universe of prefix-related names (with and without module boundaries), levels, additivity flags, appender wiring (incl. loggers without appenders) and event scripts; \
